@@ -2146,6 +2146,12 @@ class Transport(threading.Thread, ClosingContextManager):
             reply.add_int(OPEN_FAILED_ADMINISTRATIVELY_PROHIBITED)
             reply.add_string("")
             reply.add_string("en")
+        # Anything else gated here (replies to requests we cannot have made
+        # yet) has no failure message of its own; never hand back an empty
+        # message, the packetizer cannot send one.
+        else:
+            reply.add_byte(cMSG_UNIMPLEMENTED)
+            reply.add_int(message.seqno)
         # NOTE: Post-open channel messages do not need checking; the above will
         # reject attempts to open channels, meaning that even if a malicious
         # user tries to send a MSG_CHANNEL_REQUEST, it will simply fall under
